@@ -524,6 +524,10 @@ def field_configs(tier):
             out.append(("f.pi%d.%s" % (k, en), "pi", (k,), "codes::pi::PiWrite::write_pi", "codes::pi::PiRead::read_pi", {"E": e}, (("usize", k),), U64MAX, True))
         for k in rk:
             out.append(("f.rice%d.%s" % (k, en), "rice", (k,), "codes::rice::RiceWrite::write_rice", "codes::rice::RiceRead::read_rice", {"E": e}, (("usize", k),), U64MAX, False))
+        for k in ([0, 1, 2, 3] + ([4, 5] if tier == "thorough" else [])):
+            for r in range(1 << k):
+                out.append(("f.exp_golomb%d[r=%d].%s" % (k, r, en), "exp_golomb_class", (k, r), "codes::exp_golomb::ExpGolombWrite::write_exp_golomb",
+                            "codes::exp_golomb::ExpGolombRead::read_exp_golomb", {"E": e}, (("usize", k),), (U64MAX - 1 - r) >> k, True, (1 << k, r)))
         for u in us:
             out.append(("f.minimal_binary%d.%s" % (u, en), "minimal_binary", (u,), "codes::minimal_binary::MinimalBinaryWrite::write_minimal_binary",
                         "codes::minimal_binary::MinimalBinaryRead::read_minimal_binary", {"E": e}, (("u64", u),), u - 1, True))
@@ -605,6 +609,11 @@ def compare_fields(code, en, params, c, y0, y1, depth=0):
     if code == "rice":
         k = params[0]
         fl = [("U", ("shr", 1, 0, k)), ("B", ("aff", 1, 0), k)]
+    elif code == "exp_golomb_class":
+        # n = 2^k * y + r: gamma code of n >> k = y, then the k low bits of n (= r)
+        k, r = params
+        g = refspec.fields("gamma", en, (), y0, y1)
+        fl = None if g is None else g + [("B", ("aff", 0, r), k)]
     else:
         fl = refspec.fields(code, en, params, y0, y1)
     if fl is None:
@@ -676,11 +685,12 @@ def replay_reader(F, body, env, extra, c, expect=(1, 0)):
 
 
 def _work_fields(job):
-    fs, key, code, params, wpath, rpath, env, extra, hi, refine = job
+    fs, key, code, params, wpath, rpath, env, extra, hi, refine = job[:10]
+    inp = job[10] if len(job) > 10 else (1, 0)
     F = _F[fs]
     en = "be" if env["E"] == BE else "le"
     try:
-        r = Run(F, key, F.body(wpath), env, extra, {}, receiver=True, hi=hi, refine_const=refine)
+        r = Run(F, key, F.body(wpath), env, extra, {}, receiver=True, hi=hi, refine_const=refine, inp=inp)
         raw = len(r.cells)
         r.remerge()
     except Unsupported as e:
@@ -692,7 +702,7 @@ def _work_fields(job):
     dom_bad = None
     for c in r.cells:
         if c.status != "ok":
-            if c.y1 <= hi - (1 if hi == U64MAX else 0):
+            if c.y1 <= hi - (1 if hi == U64MAX else 0) or inp != (1, 0):
                 dom_bad = "writer fails on [%d, %d]: %s" % (c.y0, c.y1, c.why)
             continue
         if not fprob:
@@ -704,7 +714,7 @@ def _work_fields(job):
             pieces += n
         if rpath is not None and not rprob:
             try:
-                p = replay_reader(F, F.body(rpath), env, extra, c)
+                p = replay_reader(F, F.body(rpath), env, extra, c, expect=inp)
             except Exception as e:
                 p = "internal error %r" % (e,)
             if p:
@@ -735,7 +745,7 @@ def run_c04_fields(chk, F, fs, tier):
     chk.rule("D3.spec", floor=1, doc="the field-level reference (sa/refspec.py, from the module docs) agrees with the bit-level reference definitions (sa/refcodes.py) and the documented examples")
     probs = refspec.self_check()
     chk.expect("D3.spec", "self_check", not probs, "refspec.py disagrees with refcodes.py / documented examples: %s" % probs[:5])
-    chk.rule("D3.fields", floor=100, doc="for every value of the domain (partition of [0, 2^64-1] into cells with one control path) the non-table writer emits exactly the documented fields: same primitives, same widths, and each field value equal modulo 2^width to the documented one as an affine function of n (gamma, delta, zeta_k, omega BE/LE, pi_k, Rice_k, minimal binary u)")
+    chk.rule("D3.fields", floor=140, doc="for every value of the domain (partition of [0, 2^64-1] into cells with one control path) the non-table writer emits exactly the documented fields: same primitives, same widths, and each field value equal modulo 2^width to the documented one as an affine function of n (gamma, delta, zeta_k, omega BE/LE, pi_k, Rice_k, minimal binary u; exp-Golomb_k for k <= 3 on the residue classes n = 2^k*y + r)")
     sfx = "" if fs == "default" else "@" + fs
     for cfg, r in evaluate_fields(F, fs, tier):
         key = cfg[0] + sfx
@@ -748,7 +758,7 @@ def run_c04_fields(chk, F, fs, tier):
 
 
 def run_c03_roundtrip(chk, F, fs, tier):
-    chk.rule("K2.replay", floor=90, doc="round trip at the level of stream primitives, for every value: the reader of each code, interpreted on each cell with read_unary/read_bits answered by the primitives the writer emitted there (same order, same widths, low w bits), consumes all of them and returns exactly n (affine form 1*n+0): gamma, delta, zeta_k, pi_k, Rice_k, minimal binary u; both endiannesses; non-table paths")
+    chk.rule("K2.replay", floor=135, doc="round trip at the level of stream primitives, for every value: the reader of each code, interpreted on each cell with read_unary/read_bits answered by the primitives the writer emitted there (same order, same widths, low w bits), consumes all of them and returns exactly n (affine form 1*n+0): gamma, delta, zeta_k, pi_k, Rice_k, minimal binary u, exp-Golomb_k (k <= 3, residue classes); both endiannesses; non-table paths")
     sfx = "" if fs == "default" else "@" + fs
     for cfg, r in evaluate_fields(F, fs, tier):
         key = cfg[0] + sfx
